@@ -88,6 +88,10 @@ def read_battery(tree):
     quiet(lambda: tree.format())
     quiet(lambda: tree.to_dict_list())
     quiet(lambda: list(tree.to_dot()))
+    quiet(lambda: tree.to_rdf_graph())
+    quiet(lambda: tree.to_mermaid_flowchart(__import__("io").StringIO()))
+    quiet(lambda: tree.save(__import__("io").StringIO()))
+    quiet(lambda: (tree.children, tree.get_toplevel_nodes(), tree.first_child() if not typed else None))
     quiet(lambda: (tree.count, tree.count_unique, len(tree), tree.calc_height()))
     quiet(lambda: tree.copy())
     for n in nodes[:12]:
@@ -99,6 +103,7 @@ def read_battery(tree):
                        n.get_parent_list(), n.path, n.count_descendants(), n.calc_height(), n.get_top(), n.is_clone(), n.get_clones()))
         quiet(lambda: list(n.iterator(add_self=True)))
         quiet(lambda: n.format())
+        quiet(lambda: (list(n.to_dot()), n.to_rdf_graph(), n.to_dict()))
         if typed:
             quiet(lambda: (n.get_children(n.kind), n.first_child(n.kind), n.last_child(n.kind), n.has_children(n.kind), n.get_index(any_kind=True),
                            n.get_siblings(any_kind=True), list(tree.iter_by_type(n.kind))))
@@ -175,7 +180,10 @@ def live_in(tree, pool, which=None):
                     n.set_data(d, data_id=i, with_clones=False)
     except Exception:  # noqa
         return False
-    return shape() == want
+    try:
+        return shape() == want
+    except Exception:  # noqa
+        return False      # the tree cannot even be read back (changed code): give up, the caller builds a fresh one
 
 
 def fresh_kind(k):
